@@ -13,11 +13,12 @@ let int_of_nat n = let rec go acc = function O -> acc | S m -> go (acc + 1) m in
 
 let w = 64
 
-let decode ni v = let pi = v / w and k = v mod w in (pi / ni) * 1000000 + (pi mod ni) * 1000 + k
+(* item at position j of a scatter call: the model codes it (p*ni+i)*w + (j mod w); rendered as the harness codes it *)
+let decode ni j v = let pi = v / w in if v mod w <> j mod w then -1 else (pi / ni) * 1000000 + (pi mod ni) * 1000 + j
 
 let fmt_call ni src ((i, n), items) =
   Printf.sprintf "%d>%d:%d:%s" src (int_of_nat i) (int_of_nat n)
-    (String.concat "." (List.map (fun v -> string_of_int (decode ni (int_of_nat v))) items))
+    (String.concat "." (List.mapi (fun j v -> string_of_int (decode ni j (int_of_nat v))) items))
 
 (* public observation from a list of (src, dst, calls) *)
 let public ni np (triples : (int * int * c06_call list) list) =
@@ -68,7 +69,6 @@ let () =
       if not c06_channels_separate then failwith "size and data tags coincide: model assumption broken";
       let buf = int_of_nat obj.vsc_buf in
       let variable = (mode = 1) and backward = (dir = 1) in
-      List.iter (List.iter (fun n -> if int_of_nat n >= w then failwith "size too large for item coding")) sizes;
       let nbuf = nat_of_int buf and nni = nat_of_int ni and nw = nat_of_int w and nnp = nat_of_int np in
       let run fixnew sched =
         match c06_init variable backward fixnew nbuf nni nw nnp sizes es with
